@@ -150,16 +150,15 @@ macro_rules! build {
         }
         let b = $builder
             .with_io(io.build()?)?
-            .with_tls($tls)?
-            .with_event(Sub { enabled: $cfg.events })?
+            .with_tls(crate::tpw::TpTls { inner: $tls, limit: $lim.active_cid_limit })?
+            .with_event(Sub { enabled: $cfg.events, endpoint_drops: $cfg.endpoint_drops })?
             .with_random(Random(Rng(cfg::mix($cfg.seed ^ $salt))))?
             .with_limits(mk_limits($lim))?
             .with_packet_interceptor(Icpt::new($ep, $cfg))?;
-        // the library's default connection-id provider stays in place unless a C13 parameter is set
-        match $cfg.cid_format($lim) {
-            Some(f) => finish!(b.with_connection_id(CidFormat::new($cfg.seed ^ $salt, f))?, $cfg),
-            None => finish!(b, $cfg),
-        }
+        // same settings as the library's default connection-id provider (16 random bytes, no lifetime,
+        // handshake-id rotation on) unless a C13 parameter says otherwise; bytes come from the scenario PRNG
+        let f = $cfg.cid_format($lim).unwrap_or((16, None, true));
+        finish!(b.with_connection_id(CidFormat::new($cfg.seed ^ $salt, f))?, $cfg)
     }};
 }
 
@@ -200,11 +199,19 @@ pub fn setup(handle: &Handle, cfg: &Cfg) -> Result<()> {
         cfg,
         "s",
         &cfg.server,
-        (certificates::CERT_PEM, certificates::KEY_PEM),
+        s2n_quic::provider::tls::default::Server::builder().with_certificate(certificates::CERT_PEM, certificates::KEY_PEM)?.build()?,
         0x5e
     );
     let client_io = if cfg.rebind_at_ms.is_empty() { handle.builder() } else { handle.builder().on_socket(rebinder(cfg)) };
-    let client: Client = build!(Client::builder(), client_io, cfg, "c", &cfg.client, certificates::CERT_PEM, 0xc1);
+    let client: Client = build!(
+        Client::builder(),
+        client_io,
+        cfg,
+        "c",
+        &cfg.client,
+        s2n_quic::provider::tls::default::Client::builder().with_certificate(certificates::CERT_PEM)?.build()?,
+        0xc1
+    );
     let addr = start_server(server, cfg.clone())?;
     start_client(client, addr, cfg.clone());
     // watchdog: give up at the deadline (reported, so that "never terminates" is observable)
